@@ -289,7 +289,7 @@ def run(ctx, out, tier):
     if res and len(res) == 3 and res[2]:
         co, task, calls = res
         bi, t = calls[0]
-        resolve = lambda labs: ctx.prov.resolve_upvars(task, labs)
+        resolve = asyncval.task_resolver(ctx, co, task)
         alls = [resolve(ctx.prov.read_operand(task, a)) for a in t["args"]]
         if any(P.has_const(a, NAME) and P.has_path(a, "attributes") for a in alls):
             k += 1
